@@ -123,6 +123,19 @@ def judgeAgree (impl : String) : String :=
     | none => "ok"
     | some (n, _) => s!"JUDGE C16 entry point '{n}' emits a different output sequence than the per-event path"
 
+/-- `a / b` lines: the property's verdict is that both sides are equal -/
+def judgeEqual (impl : String) (why : String) : String :=
+  match impl.splitOn " / " with
+  | [a, b] => if a == b then "ok" else s!"JUDGE {why}"
+  | _ => "BADLINE"
+
+/-- programs `P` (behaviour: recorded results before and after the reload, the invocation index running
+on) and `P'` (behaviour: the recorded results after the reload, counted from 0) -/
+def reloadDefs (st : St) : List SDef × List SDef :=
+  let pre := (st.traces.lookup "pre").getD []
+  let post := (st.traces.lookup "post").getD []
+  (st.decls.map (mkDef (pre ++ post) (fun _ => 0)), st.decls2.map (mkDef post (fun _ => 0)))
+
 def step (st : St) (line : String) : St × String :=
   let (op, impl?) := splitCase line
   let impl := impl?.getD ""
@@ -142,6 +155,34 @@ def step (st : St) (line : String) : St × String :=
   | ["router"] =>
     let E := load (st.decls.map (mkDef [] (fun _ => 0)))
     (st, verdict (fmtRouter E.router) impl)
+  | ["agree", _] => (st, judgeAgree impl)
+  | ["rrouter"] =>
+    let (d1, d2) := reloadDefs st
+    (st, verdict (fmtRouter (reload (load d1) d2).router) impl)
+  | ["reload", k, inputs] =>
+    match k.toNat?, parseEvs inputs with
+    | some k, some evs =>
+      let (d1, d2) := reloadDefs st
+      let r1 := perEvent (load d1) (evs.take k)
+      let E1 := reload r1.eng d2
+      let r2 := perEvent E1 (evs.drop k)
+      let handed := " ".intercalate (st.decls2.map fun d =>
+        s!"{d.name}:{fmtEvs ((r2.eng.hist d.name).drop (E1.hist d.name).length)}")
+      (st, verdict s!"{fmtEvs r1.sent} | {fmtEvs r2.sent} | {handed}" impl)
+    | _, _ => (st, "BADLINE")
+  | ["same", _, _] => (st, judgeEqual impl "C23 reloading the same program changed the outputs (left: reloaded, right: never reloaded)")
+  | ["fresh0", _] => (st, judgeEqual impl "C23 reloading before any event differs from a fresh engine of the new program")
+  | ["iso", _, sid, chg] =>
+    match sid.toNat?, kv chg "changed" with
+    | some sid, some c =>
+      let (d1, d2) := reloadDefs st
+      let modelChanged := !(keeps changed (load d1) (load d2) sid)
+      if modelChanged != (c == "1") then (st, s!"DIFF model=changed={if modelChanged then 1 else 0}")
+      else if impl == "skip" then (st, "SKIP")
+      else if modelChanged then
+        (st, judgeEqual impl s!"C23 stream {sid} is new or changed but does not behave like a freshly loaded stream")
+      else (st, judgeEqual impl s!"C23 stream {sid} is unchanged but lost its state or definition")
+    | _, _ => (st, "BADLINE")
   | [kind, path, sizes, inputs] =>
     if kind != "handed" && kind != "outs" then (st, "BADLINE") else
     match parseNats sizes, parseEvs inputs, st.traces.lookup path with
@@ -153,7 +194,6 @@ def step (st : St) (line : String) : St × String :=
         else (st, verdict (fmtEvs r.sent) impl)
       | none => (st, "BADLINE")
     | _, _, _ => (st, "BADLINE")
-  | ["agree", _] => (st, judgeAgree impl)
   | [] => (st, "")
   | _ => (st, "BADLINE")
 
